@@ -369,20 +369,11 @@ def build_pkg(ps):
             members.append((F + u'extra.bin', b'x' + bytes([o['num'] % 256])))
             man.append((F + u'extra.bin', u''))
         if o.get('rich'):
-            # everything an office suite (or anyone) may put below an object folder: a meta.xml and a (childless) settings.xml of its
-            # own, a thumbnail, an ObjectReplacements-like file, a sub-folder of Pictures/, files named like top-level parts
-            n_ = o['num'] % 256
-            for rel, mt_, data in (
-                    (u'meta.xml', u'text/xml', pk.new_real(o['kind'], mk, False).metaxml().encode('utf-8')),
-                    (u'Thumbnails/thumbnail.png', u'image/png', bytes([n_, 1])),
-                    (u'ObjectReplacements/Object 1', u'application/x-openoffice-gdimetafile', bytes([n_, 2])),
-                    (u'Pictures/sub/deep.png', u'image/png', bytes([n_, 3])),
-                    (u'mimetype', u'', pk.KINDS[o['kind']].encode('utf-8')),
-                    (u'META-INF/manifest.xml', u'text/xml', b'<m/>'),
-                    (u'Configurations2/menubar/menubar.xml', u'', b'<c/>')):
-                members.append((F + rel, data)); man.append((F + rel, mt_))
-            man.append((F + u'Thumbnails/', u''))
-            man.append((F + u'Configurations2/', u'application/vnd.sun.xml.ui.configuration'))
+            # everything an office suite (or anyone) may put below an object folder (pk.own_files), plus a childless settings.xml
+            fs, ds = pk.own_files(F, mk, o['kind'])
+            for path, mt_, data in fs:
+                members.append((path, data)); man.append((path, mt_))
+            man += ds
             if not o['settings']:
                 members.append((F + u'settings.xml', pk.new_real(o['kind'], mk, False).settingsxml().encode('utf-8')))
                 man.append((F + u'settings.xml', u'text/xml'))
@@ -393,6 +384,19 @@ def build_pkg(ps):
             man.append((G, pk.KINDS['text']))
             for n in ('content.xml', 'styles.xml'):
                 members.append((G + n, np_[n])); man.append((G + n, u'text/xml'))
+            if o.get('rich'):
+                # the nested object has files of its own under the same relative names, and an object of its own (depth 3) with the same
+                fs, ds = pk.own_files(G, 2000 + o['num'], 'text')
+                H = G + u'Object 3/'
+                mimetypes[3000 + o['num']] = pk.KINDS['spreadsheet']
+                man.append((H, pk.KINDS['spreadsheet']))
+                hp = pk.parts_of('spreadsheet', 3000 + o['num'], False)
+                fs2, ds2 = pk.own_files(H, 3000 + o['num'], 'spreadsheet')
+                for n in ('content.xml', 'styles.xml'):
+                    members.append((H + n, hp[n])); man.append((H + n, u'text/xml'))
+                for path, mt_, data in fs + fs2:
+                    members.append((path, data)); man.append((path, mt_))
+                man += ds + ds2
     if ps['extras']:
         members.append((u'layout-cache', b'lc')); man.append((u'layout-cache', u'application/binary'))
         man.append((u'Configurations2/', u''))
